@@ -260,7 +260,11 @@ class PkgConfigInfo:
         # already in libs: for static linking, a library has to be listed
         # *after* the libraries that depend on it.
         fwd = opts.ForwardOptions.recurse(chain(libs, libs_private))
-        libs_private = uniques(chain(libs_private, fwd.libs))
+        # Keep the *last* occurrence of each: every library is followed by the
+        # expansion of its own dependencies, so only that is in link order.
+        libs_private = uniques(
+            list(chain(libs_private, fwd.libs))[::-1]
+        )[::-1]
 
         # Get the package dependencies for all the libs (public and private)
         # that were passed in.
